@@ -720,4 +720,9 @@ class Cell(Numbered_MCNP_Object):
                         # add trailing space to comment if necessary
                         ret = cleanup_last_line(ret)
                         ret += param.format()
+        # the input must not end in the continuation mark "&": it would continue into the next input
+        # (the parameter that used to follow the "&" may have been printed elsewhere)
+        stripped = ret.rstrip()
+        if stripped.endswith("&") and "$" not in stripped.splitlines()[-1]:
+            ret = stripped[:-1]
         return self.wrap_string_for_mcnp(ret, mcnp_version, True)
